@@ -93,20 +93,20 @@ type c15Env struct {
 	host     string
 }
 
-// loopbackHost picks a private 127/8 address for this process, so that concurrently running
+// c15LoopbackHost picks a private 127/8 address for this process, so that concurrently running
 // harnesses never compete for a port.
-func loopbackHost() string {
+func c15LoopbackHost() string {
 	p := os.Getpid()
 	return fmt.Sprintf("127.%d.%d.%d", 16+(p>>16)%200, (p>>8)&255, 1+p%250)
 }
 
-var portRand = rand.New(rand.NewSource(int64(os.Getpid())*7919 + 17))
+var c15PortRand = rand.New(rand.NewSource(int64(os.Getpid())*7919 + 17))
 
-// freePort picks a port on host that is free right now, below the kernel's ephemeral range
+// c15FreePort picks a port on host that is free right now, below the kernel's ephemeral range
 // (32768-60999 here), so that no other process's bind to port 0 can take it in the meantime.
-func freePort(host string) int {
+func c15FreePort(host string) int {
 	for try := 0; try < 200; try++ {
-		p := 20000 + portRand.Intn(12000)
+		p := 20000 + c15PortRand.Intn(12000)
 		ln, err := net.Listen("tcp", fmt.Sprintf("%s:%d", host, p))
 		if err != nil {
 			continue
@@ -117,9 +117,9 @@ func freePort(host string) int {
 	panic("no free port on " + host)
 }
 
-func newC15Env() (*c15Env, error) {
+func c15NewEnv() (*c15Env, error) {
 	log.SetOutput(io.Discard) // the solvers' servers log handshake errors of probes
-	e := &c15Env{backend: doubles.NewMemBackend(), host: loopbackHost()}
+	e := &c15Env{backend: doubles.NewMemBackend(), host: c15LoopbackHost()}
 	e.backend.Log.Hook = func(op *doubles.Op) error {
 		if e.loadFail && op.Kind == "Load" && strings.Contains(op.Key, "challenge_tokens") {
 			return errors.New("injected storage read failure")
@@ -130,9 +130,9 @@ func newC15Env() (*c15Env, error) {
 		st := doubles.NilCtxStorage{S: e.backend.Handle(inst)}
 		cfg, cache := doubles.NewConfig(st, certmagic.Config{DefaultServerName: "app.example", FallbackServerName: "app.example"}, certmagic.CacheOptions{})
 		i0 := certmagic.NewACMEIssuer(cfg, certmagic.ACMEIssuer{CA: "https://ca-one.test/dir", TestCA: "https://staging.ca-one.test/dir", Email: "x@example.com", Agreed: true, Logger: zap.NewNop(),
-			ListenHost: e.host, AltHTTPPort: freePort(e.host), AltTLSALPNPort: freePort(e.host)})
+			ListenHost: e.host, AltHTTPPort: c15FreePort(e.host), AltTLSALPNPort: c15FreePort(e.host)})
 		i1 := certmagic.NewACMEIssuer(cfg, certmagic.ACMEIssuer{CA: "https://ca-two.test/acme/directory", TestCA: "https://ca-two.test/acme/directory", Email: "x@example.com", Agreed: true, Logger: zap.NewNop(),
-			ListenHost: e.host, AltHTTPPort: freePort(e.host), AltTLSALPNPort: freePort(e.host)})
+			ListenHost: e.host, AltHTTPPort: c15FreePort(e.host), AltTLSALPNPort: c15FreePort(e.host)})
 		cfg.Issuers = []certmagic.Issuer{i0, i1}
 		return cfg, []*certmagic.ACMEIssuer{i0, i1}, cache, st
 	}
@@ -256,7 +256,7 @@ func (e *c15Env) reset(in *c15In) error {
 	return nil
 }
 
-var oidACMEIdentifier = asn1.ObjectIdentifier{1, 3, 6, 1, 5, 5, 7, 1, 31}
+var c15OIDACMEIdentifier = asn1.ObjectIdentifier{1, 3, 6, 1, 5, 5, 7, 1, 31}
 
 type c15Obs struct {
 	Handled    bool     `json:"handled,omitempty"`
@@ -325,7 +325,7 @@ func (e *c15Env) query(in *c15In, q c15Query) (c15Obs, *url.URL, error) {
 			o.CertNames = leaf.DNSNames
 			var digest []byte
 			for _, ext := range leaf.Extensions {
-				if ext.Id.Equal(oidACMEIdentifier) {
+				if ext.Id.Equal(c15OIDACMEIdentifier) {
 					asn1.Unmarshal(ext.Value, &digest)
 					if digest == nil {
 						digest = []byte{}
@@ -352,7 +352,7 @@ func (e *c15Env) query(in *c15In, q c15Query) (c15Obs, *url.URL, error) {
 	return o, nil, fmt.Errorf("bad query kind %q", q.Kind)
 }
 
-func revAddr(c c15Chal) *string {
+func c15RevAddr(c c15Chal) *string {
 	r, err := dns.ReverseAddr(c.Ident)
 	if err != nil {
 		return nil
@@ -360,13 +360,13 @@ func revAddr(c c15Chal) *string {
 	return &r
 }
 
-func encChal(e *emit.Enc, c c15Chal) {
+func c15EncChal(e *emit.Enc, c c15Chal) {
 	t := map[string]int{"http-01": 0, "tls-alpn-01": 1, "dns-01": 2}
 	ty, ok := t[c.Type]
 	if !ok {
 		ty = 3
 	}
-	e.Int(ty).Str(c.Token).Str(c.KeyAuth).Bool(c.IDType == "ip").Str(c.Ident).OptStr(revAddr(c))
+	e.Int(ty).Str(c.Token).Str(c.KeyAuth).Bool(c.IDType == "ip").Str(c.Ident).OptStr(c15RevAddr(c))
 }
 
 // c15Tables: ToLower / IsSpace of the non-ASCII code points in strs, and the fold-equal pairs
@@ -478,10 +478,10 @@ func (r *c15Runner) runScenario(chals []c15Chal, ops []c15Op, queries []c15Query
 			switch op.Kind {
 			case "present":
 				enc.Int(0).Int(pl).Int(op.J)
-				encChal(enc, chals[op.C])
+				c15EncChal(enc, chals[op.C])
 			case "clean":
 				enc.Int(1).Int(pl).Int(op.J)
-				encChal(enc, chals[op.C])
+				c15EncChal(enc, chals[op.C])
 			case "tamper":
 				enc.Int(2).Int(op.J).Str(op.Name).Int(map[string]int{"delete": 0, "corrupt": 1, "empty": 2}[op.V])
 			}
@@ -506,7 +506,7 @@ func (r *c15Runner) runScenario(chals []c15Chal, ops []c15Op, queries []c15Query
 				enc.Int(0)
 				if obs.KeyAuthOf >= 0 {
 					enc.Bool(true)
-					encChal(enc, chals[obs.KeyAuthOf])
+					c15EncChal(enc, chals[obs.KeyAuthOf])
 				} else {
 					enc.Bool(false)
 				}
@@ -556,9 +556,9 @@ func c15NewChal(r *rand.Rand, typ, ident string) c15Chal {
 	return c15Chal{Type: typ, Token: t, KeyAuth: t + "." + c15Token(r), IDType: idt, Ident: ident}
 }
 
-type variant struct{ name, val string }
+type c15Variant struct{ name, val string }
 
-func swapCase(s string) string {
+func c15SwapCase(s string) string {
 	return strings.Map(func(r rune) rune {
 		if unicode.IsUpper(r) {
 			return unicode.ToLower(r)
@@ -567,38 +567,38 @@ func swapCase(s string) string {
 	}, s)
 }
 
-func hostVariants(id string) []variant {
-	v := []variant{{"exact", id}, {"swapcase", swapCase(id)}, {"port80", net.JoinHostPort(id, "80")}, {"port8080", net.JoinHostPort(id, "8080")},
+func c15HostVariants(id string) []c15Variant {
+	v := []c15Variant{{"exact", id}, {"swapcase", c15SwapCase(id)}, {"port80", net.JoinHostPort(id, "80")}, {"port8080", net.JoinHostPort(id, "8080")},
 		{"trailing-dot", id + "."}, {"prefixed", "x" + id}, {"suffixed", id + "x"}, {"hash", id + "#"}, {"empty-port", id + ":"}, {"only-port", ":80"},
 		{"empty", ""}, {"lead-space", " " + id}, {"trail-space", id + " "}, {"other", "other.example"}, {"two-ports", id + ":80:80"},
 		{"bracketed", "[" + id + "]"}, {"bracketed-port", "[" + id + "]:80"}, {"raw-port", id + ":80"}, {"open-bracket", "[" + id},
 		{"close-bracket", id + "]"}, {"bracket-junk", "[" + id + "]x"}, {"bracket-empty-port", "[" + id + "]:"}, {"double-bracket", "[[" + id + "]]"},
-		{"zone", "[" + id + "%25eth0]"}, {"bracket-swapcase", "[" + swapCase(id) + "]"}}
+		{"zone", "[" + id + "%25eth0]"}, {"bracket-swapcase", "[" + c15SwapCase(id) + "]"}}
 	if strings.ContainsAny(id, "kK") {
-		v = append(v, variant{"kelvin", strings.NewReplacer("k", "K", "K", "K").Replace(id)})
+		v = append(v, c15Variant{"kelvin", strings.NewReplacer("k", "K", "K", "K").Replace(id)})
 	}
 	if strings.ContainsAny(id, "sS") {
-		v = append(v, variant{"long-s", strings.NewReplacer("s", "ſ", "S", "ſ").Replace(id)})
+		v = append(v, c15Variant{"long-s", strings.NewReplacer("s", "ſ", "S", "ſ").Replace(id)})
 	}
 	return v
 }
 
-func pathVariants(tok, otherTok string) []variant {
+func c15PathVariants(tok, otherTok string) []c15Variant {
 	b := c15Base
-	return []variant{{"exact", b + "/" + tok}, {"trailing-slash", b + "/" + tok + "/"}, {"longer", b + "/" + tok + "x"}, {"shorter", b + "/" + tok[:len(tok)-1]},
+	return []c15Variant{{"exact", b + "/" + tok}, {"trailing-slash", b + "/" + tok + "/"}, {"longer", b + "/" + tok + "x"}, {"shorter", b + "/" + tok[:len(tok)-1]},
 		{"base", b}, {"base-slash", b + "/"}, {"double-slash-lead", "/" + b + "/" + tok}, {"double-slash-mid", b + "//" + tok}, {"upper-base", strings.ToUpper(b) + "/" + tok},
 		{"encoded-dot", "/%2Ewell-known/acme-challenge/" + tok}, {"encoded-token", b + "/%" + fmt.Sprintf("%02X", tok[0]) + tok[1:]}, {"encoded-slash", b + "/" + tok + "%2F"},
 		{"query", b + "/" + tok + "?q=1"}, {"prefixed", "/app" + b + "/" + tok}, {"base-longer", b + "X/" + tok}, {"other-token", b + "/" + otherTok},
-		{"doubled", b + "/" + tok + tok}, {"swapcase-token", b + "/" + swapCase(tok)}, {"root", "/"}, {"dot-segment", b + "/./" + tok}, {"dotdot-segment", b + "/x/../" + tok}}
+		{"doubled", b + "/" + tok + tok}, {"swapcase-token", b + "/" + c15SwapCase(tok)}, {"root", "/"}, {"dot-segment", b + "/./" + tok}, {"dotdot-segment", b + "/x/../" + tok}}
 }
 
 var c15Methods = []string{"GET", "HEAD", "POST", "get", "GETX", "PUT", "OPTIONS"}
 
-func sniVariants(key, ident string) []variant {
-	v := []variant{{"exact", key}, {"swapcase", swapCase(key)}, {"hash", key + "#"}, {"trailing-dot", key + "."}, {"prefixed", "x" + key}, {"empty", ""},
+func c15SNIVariants(key, ident string) []c15Variant {
+	v := []c15Variant{{"exact", key}, {"swapcase", c15SwapCase(key)}, {"hash", key + "#"}, {"trailing-dot", key + "."}, {"prefixed", "x" + key}, {"empty", ""},
 		{"other", "other.example"}, {"lead-space", " " + key}, {"plus", key + "+"}, {"colon", key + ":"}, {"slash", key + "/"}, {"ident", ident}}
 	if strings.ContainsAny(key, "kK") {
-		v = append(v, variant{"kelvin", strings.NewReplacer("k", "K", "K", "K").Replace(key)})
+		v = append(v, c15Variant{"kelvin", strings.NewReplacer("k", "K", "K", "K").Replace(key)})
 	}
 	return v
 }
@@ -641,9 +641,9 @@ func c15QueriesFor(r *rand.Rand, chals []c15Chal, ci int, state string, thorough
 		qs = append(qs, q)
 		ds = append(ds, d)
 	}
-	hv, pv := hostVariants(c.Ident), pathVariants(c.Token, other)
+	hv, pv := c15HostVariants(c.Ident), c15PathVariants(c.Token, other)
 	// the challenge's memory / storage key as Host: found by the lookup, refused by the Host check
-	hv = append(hv, variant{"chal-key", certmagic.VerifChallengeKey(c.acme())}, variant{"chal-key-port", certmagic.VerifChallengeKey(c.acme()) + ":80"})
+	hv = append(hv, c15Variant{"chal-key", certmagic.VerifChallengeKey(c.acme())}, c15Variant{"chal-key-port", certmagic.VerifChallengeKey(c.acme()) + ":80"})
 	exactPath := pv[0].val
 	hostExact := c.Ident
 	if idk == "ipv6" {
@@ -672,7 +672,7 @@ func c15QueriesFor(r *rand.Rand, chals []c15Chal, ci int, state string, thorough
 		add(c15Query{Kind: "http", Method: m, Target: p.val, Host: h.val, LoadFault: r.Intn(15) == 0}, map[string]any{"host": h.name, "path": p.name, "method": m})
 	}
 	key := certmagic.VerifChallengeKey(c.acme())
-	sv := sniVariants(key, c.Ident)
+	sv := c15SNIVariants(key, c.Ident)
 	for _, s := range sv {
 		add(c15Query{Kind: "hello", SNI: s.val, Protos: []string{"acme-tls/1"}}, map[string]any{"sni": s.name, "protos": "acme-only"})
 	}
@@ -704,7 +704,7 @@ func c15Uniq(id string, n int) string {
 func runC15(tier string, seed int64, outdir string, replay string) error {
 	w := emit.NewWriter(outdir, "C15", tier, seed)
 	defer w.Close()
-	env, err := newC15Env()
+	env, err := c15NewEnv()
 	if err != nil {
 		return err
 	}
@@ -756,7 +756,7 @@ func runC15(tier string, seed int64, outdir string, replay string) error {
 		}
 	}
 	w.Meta.Oracles = append(w.Meta.Oracles, emit.OracleCheck{Name: "acme.Challenge survives the JSON round trip through storage (type, token, key authorization, identifier)", OK: jsonOK})
-	w.Meta.Rule = "distinct (history, request) pairs in which the history presented at least one challenge and the request is a variant of that challenge's validation request (its token path / identifier / key in some spelling)"
+	w.Meta.Rule = "distinct (history, request) pairs in which the history presented at least one challenge and the request is a c15Variant of that challenge's validation request (its token path / identifier / key in some spelling)"
 
 	if replay != "" {
 		rc, err := loadReplay(replay)
